@@ -157,9 +157,6 @@ func Select(cases ...Case) Sel {
 	for i, c := range cases {
 		i, c := i, c
 		if c.dir == 0 {
-			if s.Hashing() {
-				panic("vrt: select with default is not supported together with state caching")
-			}
 			defIdx = i
 			tc.cases = append(tc.cases, pendingCase{})
 			op.Alts = append(op.Alts, sched.Alt{}) // filled below
@@ -207,7 +204,13 @@ func Select(cases ...Case) Sel {
 	}
 	if defIdx >= 0 {
 		alts := op.Alts
-		op.Alts[defIdx] = sched.Alt{Enabled: func() bool {
+		var reads []*sched.HB
+		for _, c := range cases {
+			if c.dir != 0 && !c.ch.isNil() {
+				reads = append(reads, c.ch.cell())
+			}
+		}
+		op.Alts[defIdx] = sched.Alt{Reads: reads, Enabled: func() bool {
 			for i, a := range alts {
 				if i == defIdx {
 					continue
